@@ -38,5 +38,4 @@ SHAPE_KEYS: set[tuple[str, str]] = {
     ("C29.R2", "advance"),
     ("C29.R2", "start"),
     ("C29.R2", "trait"),
-    ("C29.R3", "scope-mismatch"),
 }
